@@ -431,7 +431,16 @@ class Response(_SansIOResponse):
         """
         # Always freeze the encoded response body, ignore
         # implicit_sequence_conversion and direct_passthrough.
+        close = getattr(self.response, "close", None)
         self.response = list(self.iter_encoded())
+
+        if close is not None:
+            # The iterable was consumed and is dropped here, so it is closed
+            # here. It is not registered with call_on_close like
+            # make_sequence does, a bound close method would make the frozen
+            # response unpicklable.
+            close()
+
         self.headers["Content-Length"] = str(sum(map(len, self.response)))
         self.add_etag()
 
